@@ -143,6 +143,14 @@ def make_run(opname, op, dt, backend, ctx_kind, with_filter):
                     continue
                 got = v.nv
             else:
+                if ctx_kind == "window":
+                    inner = v
+                    while isinstance(inner, sqlmodel.SX) and inner.kind in ("cast", "type_coerce", "label"):
+                        inner = inner.args[-1] if inner.kind == "label" else inner.args[0]
+                    ok = isinstance(inner, sqlmodel.SX) and inner.kind == "over" and inner.args[1] is not None and [a.name for a in inner.args[1].args] == ["g"]
+                    if not ok:
+                        vc.require(p.pc, z3.BoolVal(False), label=f"SQL expression for an aggregate used as window function is not `agg OVER (PARTITION BY g)`: {v!r}"[:300])
+                        continue
                 got = sqlmodel.den(v)
             facts = N.agg_facts()
             wit = {"rows": N.G_ROWS, "got_null": got.null, "got_val": got.val, "expected_null": spec_nv.null, "expected_val": spec_nv.val}
